@@ -161,3 +161,33 @@ def run(repo: Repo, rep: Report, tier: str) -> None:
     rep.rule("C12-R4", "optimising one memory cell re-points only that cell's reads (the feedback rewrite walks the table of all reads)")
     from .shared import reads_repointed_only_for_own_cell
     reads_repointed_only_for_own_cell(repo, rep, "C12-R4")
+
+    # ---------------- R5 ---------------------------------------------------------------
+    rep.rule("C12-R5", "the colour lock for a memory's data channel binds only producers that actually feed that memory's write gate with its data signal: the lock store is guarded by "
+             "`write gate in the edge's sinks` and by `the edge carries the cell's signal` (both, not either), so an unrelated producer of the same signal name keeps its free colour")
+    from .util import canon as _c5, stmt_of as _so5
+    from ..sites import guard_chain as _gc5
+    dl5 = repo.func("LayoutPlanner._determine_locked_wire_colors")
+    c5 = _c5(dl5)
+    MOD = "ELEM(self._memory_modules.values())"
+    EDGE = "ELEM(self.signal_graph.iter_edges())"
+    locks5 = [n for n in walk_local(dl5.node) if isinstance(n, ast.Assign) and isinstance(n.targets[0], ast.Subscript) and isinstance(n.value, ast.Constant) and n.value.value in ("red", "green")
+              and c5.text(n.targets[0].slice) == f"(ELEM({EDGE}[1]), {MOD}.signal_type)"]
+    rep.floor("C12-R5", "data-channel lock stores", len(locks5), 1)
+    for n in locks5:
+        conj: list[str] = []
+        for t, pol in _gc5(dl5, _so5(dl5, n), c5.pm):
+            if not pol:
+                continue
+            ct = c5.node(t)
+            parts = ct.values if isinstance(ct, ast.BoolOp) and isinstance(ct.op, ast.And) else [ct]
+            conj += [" ".join(ast.unparse(x).split()) for x in parts]
+        feeds = any(x == f"{MOD}.write_gate.ir_node_id in {EDGE}[2]" for x in conj)
+        carries = any(f"== {MOD}.signal_type" in x and EDGE in x for x in conj)
+        rep.check(feeds and carries, "C12-R5", "the data-channel lock is limited to edges into this memory's write gate that carry its signal",
+                  "guarded by both conditions" if feeds and carries else
+                  f"feeds-write-gate: {feeds}, carries-the-signal: {carries}: every producer of a signal with the same name anywhere in the blueprint is forced onto the memory's colour, so two such values meeting at one combinator are summed", dl5.loc(n))
+
+    # ---------------- R6 ---------------------------------------------------------------
+    from .shared import borrow as _borrow12
+    _borrow12(repo, rep, "C10", "C10-R7", "C12-R6", "common-subexpression elimination never shares a producer between two computations unless it is a pure function of shared inputs: constants stay one per use")
